@@ -38,6 +38,7 @@ pub fn def_by_symbol(sym: &str) -> Option<Def> {
         "min" => d(PQ::Time, 60.0),
         "h" => d(PQ::Time, 3600.0),
         "d" => d(PQ::Time, 86400.0),
+        "K" => Some(Def { q: PQ::Temperature, factor: 1.0, offset: 0.0 }),
         "°C" => Some(Def { q: PQ::Temperature, factor: 1.0, offset: 273.15 }),
         "°F" => Some(Def { q: PQ::Temperature, factor: 5.0 / 9.0, offset: 459.67 }),
         _ => None,
